@@ -212,10 +212,26 @@ macro_rules! wide_harness {
                             $(
                                 if i == p && !done {
                                     done = true;
+                                    let mut visited: Vec<Id> = Vec::new();
                                     for result!(id, c) in self.w.query(Query::<Views!(entity::Identifier, &mut $t)>::new()).iter {
                                         let nv = base + (idp(id).0 as u32 & 0xff);
                                         c.set(nv);
+                                        visited.push(idp(id));
                                         if let Some(r) = self.m.ents.get_mut(&idp(id)) { r[p] = Some(nv); }
+                                    }
+                                    visited.sort();
+                                    let want: Vec<Id> = self.m.ents.iter().filter(|(_, r)| r[p].is_some()).map(|(i, _)| *i).collect();
+                                    if visited != want {
+                                        chk.fail(Prop::C01, "mut-query-visited-the-wrong-entities", format!("component position {}: visited {:?}, model {:?}", p, visited, want));
+                                    }
+                                    // the same selection through a Has filter and through Not<Has>
+                                    let mut has: Vec<Id> = self.w.query(Query::<Views!(entity::Identifier), $crate::brood::query::filter::Has<$t>>::new()).iter.map(|result!(id)| idp(id)).collect();
+                                    has.sort();
+                                    let mut hasnot: Vec<Id> = self.w.query(Query::<Views!(entity::Identifier), $crate::brood::query::filter::Not<$crate::brood::query::filter::Has<$t>>>::new()).iter.map(|result!(id)| idp(id)).collect();
+                                    hasnot.sort();
+                                    let wantnot: Vec<Id> = self.m.ents.iter().filter(|(_, r)| r[p].is_none()).map(|(i, _)| *i).collect();
+                                    if has != want || hasnot != wantnot {
+                                        chk.fail(Prop::C01, "filtered-query-selected-the-wrong-entities", format!("component position {}: Has {:?} / model {:?}; Not<Has> {:?} / model {:?}", p, has, want, hasnot, wantnot));
                                     }
                                 }
                                 i += 1;
